@@ -24,9 +24,11 @@ import (
 )
 
 var opNames = []string{"GetStats", "GetAvailable", "DropPeer", "GetPeer", "GetPeers", "GetKnown", "GetKnowns", "GetConf", "SetConf",
-	"Request", "RequestWait", "Withdraw", "Have", "BadPeer", "AddKnown", "NewPeer", "Announce", "Kill", "ReaderRead", "ReaderReadComplete", "InfoComplete"}
+	"Request", "RequestWait", "Withdraw", "Have", "BadPeer", "AddKnown", "NewPeer", "Announce", "Kill", "ReaderRead", "ReaderReadComplete", "InfoComplete",
+	"PeerError", "PeerHangup"}
 
-var positions = []string{"already-stopped", "stop-before-call", "call-before-stop", "simultaneous", "context-cancelled-before-call", "context-cancelled-simultaneous"}
+var positions = []string{"already-stopped", "stop-before-call", "call-before-stop", "simultaneous", "context-cancelled-before-call", "context-cancelled-simultaneous",
+	"stop-queued-mailbox-full"}
 
 type result struct {
 	mu       sync.Mutex
@@ -54,6 +56,7 @@ type env struct {
 	t       *tor.Torrent
 	newPeer *swarm.Remote
 	rdr     *tor.Reader
+	remotes []*swarm.Remote
 }
 
 // call runs op in the calling goroutine.
@@ -119,6 +122,17 @@ func (e *env) call(op string, res *result) {
 		res.set(n, err, "")
 	case "InfoComplete":
 		res.set(b2i(t.InfoComplete()), nil, "")
+	case "PeerError":
+		// a peer leaves on its own account: it sends a frame no peer may send and gets dropped
+		if len(e.remotes) > 0 {
+			e.remotes[0].SendRaw([]byte{0x7f, 0xff, 0xff, 0xff, 9})
+		}
+		res.set(0, nil, "oversized frame sent")
+	case "PeerHangup":
+		if len(e.remotes) > 0 {
+			e.remotes[0].Close()
+		}
+		res.set(0, nil, "remote hung up")
 	}
 }
 
@@ -150,6 +164,15 @@ func enumerate(tier string) []scase {
 						}
 						if (pos == "already-stopped") && depth != 0 {
 							continue
+						}
+						if (op == "PeerError" || op == "PeerHangup") && np == 0 {
+							continue
+						}
+						if pos == "stop-queued-mailbox-full" && (depth != 512 || np == 0) {
+							// the stop is queued first, then the mailbox is filled to the brim: once per (op, peers)
+							if depth != 0 || nr != 0 || np == 0 {
+								continue
+							}
 						}
 						reps := 1
 						if pos == "simultaneous" || pos == "context-cancelled-simultaneous" {
@@ -187,6 +210,7 @@ func runCase(t *testing.T, c *vk.C, sc scase) {
 			r.SendExt0(swarm.StdExt0(0, 0))
 			remotes = append(remotes, r)
 		}
+		e.remotes = remotes
 		// blocked readers (piece 2 never arrives)
 		var blocked []*result
 		var brs []*tor.Reader
@@ -290,6 +314,29 @@ func runCase(t *testing.T, c *vk.C, sc scase) {
 			go sw.CancelContext()
 			go e.call(sc.Op, res)
 			tr.Killed = true
+		case "stop-queued-mailbox-full":
+			// the stop sits at the head of a mailbox that is then filled to the brim; whatever the call (or the
+			// departing peer) wants to tell the loop cannot be queued, and the loop stops without draining
+			ch := park()
+			go kill()
+			sw.Cut()
+			for i := 0; i < 600; i++ {
+				select {
+				case tr.T.Event <- peer.TorAnnounce{IPv6: false}:
+				default:
+					i = 600
+				}
+			}
+			qlen := len(tr.T.Event)
+			c.Count("queue_len_at_parked_cut", int64(qlen))
+			if qlen < cap(tr.T.Event) {
+				c.Inconclusive("mailbox not full")
+			}
+			go e.call(sc.Op, res)
+			sw.Cut()
+			time.Sleep(time.Second)
+			sw.Cut()
+			<-ch
 		}
 		sw.Cut()
 		time.Sleep(time.Second)
